@@ -7,6 +7,9 @@ use std::collections::HashMap;
 pub enum SchedKind {
     Random,
     Pct,
+    /// Random, but with probability 0.85 the entity that ran last runs again if it is enabled:
+    /// long bursts of one task or actor (queues fill up, others starve for a while).
+    Sticky,
 }
 
 pub struct Chooser {
@@ -23,6 +26,10 @@ enum Mode {
         prio: HashMap<u64, u64>,
         change_points: Vec<usize>,
         low: u64,
+    },
+    Sticky {
+        rng: Rng,
+        last: Option<u64>,
     },
     Replay(Vec<u32>),
 }
@@ -47,6 +54,14 @@ impl Chooser {
                 change_points,
                 low: 0,
             },
+            choices: Vec::new(),
+            step: 0,
+        }
+    }
+
+    pub fn sticky(rng: Rng) -> Self {
+        Self {
+            mode: Mode::Sticky { rng, last: None },
             choices: Vec::new(),
             step: 0,
         }
@@ -93,6 +108,16 @@ impl Chooser {
                     prio.insert(ent, 1000 - (*low).min(999));
                 }
                 best
+            }
+
+            Mode::Sticky { rng, last } => {
+                let again = last.and_then(|l| keys.iter().position(|k| *k % 10_000 == l));
+                let idx = match again {
+                    Some(i) if rng.chance(85, 100) => i,
+                    _ => rng.below(keys.len()),
+                };
+                *last = Some(keys[idx] % 10_000);
+                idx
             }
 
             Mode::Replay(list) => {
